@@ -106,7 +106,7 @@ func runReplay(eng *Engine, prop string, g *Group) (string, bool, bool) {
 	}
 	data, _ := os.ReadFile(file)
 	os.WriteFile(filepath.Join(work, pk, filepath.Base(file)), data, 0644)
-	cmd := exec.Command("bash", "-c", fmt.Sprintf("ulimit -v 8000000; cd %s && go test -tags verif -vet=off -count=1 -timeout 90s -run TestVerifReplay ./%s 2>&1", work, pk))
+	cmd := exec.Command("bash", "-c", fmt.Sprintf("ulimit -v 8000000; cd %s && go test -v -tags verif -vet=off -count=1 -timeout 90s -run TestVerifReplay ./%s 2>&1", work, pk))
 	cmd.Env = append(os.Environ(), "GOFLAGS=-mod=mod", "GOPROXY=off", "GOSUMDB=off", "GOTOOLCHAIN=local", "GOVC_MODEL="+mpath, "GOVC_OBLIGATION="+g.Name)
 	done := make(chan struct{})
 	var out []byte
